@@ -68,7 +68,7 @@ int main(int argc, char **argv) {
     _exit(n);
   } else if (!strcmp(c, "rlimits")) {
     // getrlimit of every resource, one JSON line on stdout
-    char buf[2048]; int n = 0;
+    static char buf[2048]; int n = 0;
     n += snprintf(buf + n, sizeof buf - n, "{");
     for (int r = 0; r < 16; r++) {
       struct rlimit64 { unsigned long long cur, max; } rl;
@@ -125,15 +125,15 @@ int main(int argc, char **argv) {
     _exit(fails);
   } else if (!strcmp(c, "kinds")) {
     // lstat kind of each path, one JSON array on stdout
-    char buf[65536]; int n = 0; n += snprintf(buf + n, sizeof buf - n, "[");
+    static char buf[65536]; int n = 0; n += snprintf(buf + n, sizeof buf - n, "[");
     for (int i = 2; i < argc; i++) {
-      struct stat st; char k[4200];
+      struct stat st; static char k[4200];
       if (lstat(argv[i], &st) != 0) snprintf(k, sizeof k, "absent");
       else if (S_ISREG(st.st_mode)) snprintf(k, sizeof k, "reg:%ld", (long)st.st_size);
       else if (S_ISDIR(st.st_mode)) snprintf(k, sizeof k, "dir");
       else if (S_ISFIFO(st.st_mode)) snprintf(k, sizeof k, "fifo");
       else if (S_ISSOCK(st.st_mode)) snprintf(k, sizeof k, "sock");
-      else if (S_ISLNK(st.st_mode)) { char tg[4096]; ssize_t l = readlink(argv[i], tg, sizeof tg - 1); tg[l < 0 ? 0 : l] = 0; snprintf(k, sizeof k, "sym:%s", tg); }
+      else if (S_ISLNK(st.st_mode)) { static char tg[4096]; ssize_t l = readlink(argv[i], tg, sizeof tg - 1); tg[l < 0 ? 0 : l] = 0; snprintf(k, sizeof k, "sym:%s", tg); }
       else snprintf(k, sizeof k, "other");
       n += snprintf(buf + n, sizeof buf - n, "%s\"%s\"", i > 2 ? "," : "", k);
     }
@@ -180,7 +180,7 @@ int main(int argc, char **argv) {
     else if (!strcmp(k, "execve_bad")) { r = syscall(SYS_execve, 8L, 8L, 8L); }
     else if (!strcmp(k, "symlink_nest")) {
       // symlinks that never resolve: a self-nesting link and a two-link cycle, reached by absolute path
-      char cwd[2048], pth[4096]; if (!getcwd(cwd, sizeof cwd)) _exit(51);
+      static char cwd[2048], pth[4096]; if (!getcwd(cwd, sizeof cwd)) _exit(51);
       unlink("loop"); unlink("a"); unlink("b");
       symlink("loop/x", "loop"); symlink("b", "a"); symlink("a", "b");
       snprintf(pth, sizeof pth, "%s/loop/file", cwd); r = syscall(SYS_open, pth, O_RDONLY);
